@@ -122,7 +122,7 @@ def run(rep):
             items.append({"line": line, "text": text, "cfg": cfg, "lang": "en", "expected": c["expected"], "variant": var, "feat": feat, "class_fn": cls,
                           "nontrivial": feat.get("range") == "wide" or feat.get("zone") == "explicit" or c["def"]["off"] != 0})
     forms.replay(rep, items, "c14.gen")
-    random_trace(rep, zones, defaults, 3000 if quick else 40000)
+    random_trace(rep, zones, defaults, 3000 if quick else 200000)
 
 
 def random_trace(rep, zones, defaults, n):
